@@ -241,6 +241,7 @@ def judge(module, cfg, records, *, name, shards=16, env=None, timeout=1800, heap
     with ThreadPoolExecutor(max_workers=shards) as ex:
         results = list(ex.map(one, range(shards)))
     rej = []
+    extra = []
     states = trans = 0
     for j, r in enumerate(results):
         done = r.printed("DONE")
@@ -252,8 +253,14 @@ def judge(module, cfg, records, *, name, shards=16, env=None, timeout=1800, heap
             v = json.loads(json.loads(s)) if s.startswith('"') else json.loads(s)
             v["index"] = buckets[j][v["tid"] - 1]
             rej.append(v)
+        for tag in ("F", "S"):
+            for s in r.printed(tag):
+                v = json.loads(json.loads(s)) if s.startswith('"') else json.loads(s)
+                v["index"] = buckets[j][v["tid"] - 1]
+                v["tag"] = tag
+                extra.append(v)
     shutil.rmtree(d, ignore_errors=True)
-    return rej, {"states": states, "transitions": trans, "cases": n, "wall": time.time() - t0}
+    return rej, {"states": states, "transitions": trans, "cases": n, "wall": time.time() - t0, "extra": extra}
 
 
 def parse_beh(r: TLCResult, tag="BEH"):
